@@ -281,6 +281,17 @@ def r04_2(ctx, fx):
         csw = [sw for sw in fn.discr_switches() if sw[2] and sw[2].endswith("ProtocolCodec")]
         ctx.anchor("R04.2", "start_send: match on codec", len(csw), 1, cfg=fx.cfg)
         pushes = [c for c in fn.calls(r"VecDeque(<.*>)?::push_back$") if ".pending_out_frames" in fn.recv(c)]
+        # `queue.extend([prefix, item])` queues the elements of the array in order: one virtual push per element
+        class _Push:
+            def __init__(self, call, operand):
+                self.node, self.args, self.name = call.node, [call.args[0], operand], "push_back(via extend)"
+        for c in fn.calls(r"Extend(<.*>)?>?::extend$|VecDeque(<.*>)?::extend$"):
+            if ".pending_out_frames" not in fn.recv(c) or len(c.args) < 2:
+                continue
+            q = c.args[1].get("m") or c.args[1].get("c")
+            d = fn.single_def(q[0]) if q and len(q) == 1 else None
+            if d is not None and d[1] == "assign" and d[2]["rv"]["r"] == "agg" and d[2]["rv"].get("adt") == "[array]":
+                pushes += [_Push(c, o) for o in d[2]["rv"]["ops"]]
         ctx.anchor("R04.2", "start_send: pushes into pending_out_frames", len(pushes), 3, cfg=fx.cfg)
         if csw:
             for var, want in (("Identity", "identity"), ("UnsignedVarint", "varint")):
@@ -295,7 +306,7 @@ def r04_2(ctx, fx):
             ctx.ob("R04.2", "start_send/varint-prefix-encodes-item.len()", ok, site=fn.site(enc[0].node) if enc else fn.site(fn.entry), cfg=fx.cfg)
             arm = arm_nodes(fn, csw[0], "UnsignedVarint")
             order = [c for c in pushes if c.node in arm]
-            ok = len(order) == 2 and order[1].node in fn.reach([order[0].node], after=True) and not re.match(r"^_2$", fn.origin(order[0].args[1])) and re.match(r"^_2$", fn.origin(order[1].args[1])) is not None
+            ok = len(order) == 2 and (order[1].node in fn.reach([order[0].node], after=True) or order[1].node == order[0].node) and not re.match(r"^_2$", fn.origin(order[0].args[1])) and re.match(r"^_2$", fn.origin(order[1].args[1])) is not None
             ctx.ob("R04.2", "start_send/prefix-queued-before-payload", ok, site=fn.site(order[0].node) if order else fn.site(fn.entry), cfg=fx.cfg)
     # --- direct senders
     fn = ctx.fn(fx, S + "send_identity_payload::{closure#0}", "R04.2")
@@ -623,6 +634,12 @@ def r04_8(ctx, fx):
     for n, s_ in fn.assigns():
         l = "".join(str(x) for x in s_["lhs"][1:])
         m = re.search(r"\.(\w+)$", l)
+        if m and len(s_["lhs"]) >= 2 and (
+                (s_["rv"]["r"] == "agg" and s_["rv"].get("var") and not s_["rv"].get("ops")) or
+                (s_["rv"]["r"] == "use" and "k" not in s_["rv"]["o"] and len(fn.shape(s_["rv"]["o"])) == 1 and all(re.match(r"^[A-Z]\w*$", x) for x in fn.shape(s_["rv"]["o"])))):
+            # the same flag as a two-variant private enum (`this.framing = Framing::Lost`): a constant stored in a field of self
+            markers.setdefault(m.group(1), []).append(n)
+            continue
         if not m or s_["rv"]["r"] != "use":
             continue
         v = fn.const_value(s_["rv"]["o"])
@@ -634,6 +651,16 @@ def r04_8(ctx, fx):
         m = re.search(r"\.(\w+)$", o)
         if m:
             tested.add(m.group(1))
+    for sw in fn.discr_switches():
+        m = re.search(r"\.(\w+)$", fn.origin({"c": list(sw[1])}))
+        if m:
+            tested.add(m.group(1))
+    for c in fn.calls(r"::(eq|ne)$"):
+        if c.dest and fn.bool_tests(c.dest[0]):
+            for a in c.args:
+                m = re.search(r"\.(\w+)$", fn.origin(a))
+                if m:
+                    tested.add(m.group(1))
     for i, e in enumerate(errs):
         ok = False
         why = []
